@@ -7,6 +7,7 @@ import (
 	"io"
 	"math/rand"
 	"runtime"
+	"runtime/debug"
 	"sync"
 	"sync/atomic"
 	"time"
@@ -727,13 +728,26 @@ func specialC15(seed int64, thorough bool, tmp string) *Special {
 		s2, _ := Current.Load(segment.NewDataBytes(mb))
 		pb, _ := in.Persist(s0)
 		s3, _ := in.LoadBytes(pb, 1) // file-backed
-		segs = []segment.Segment{s0, s2, s3}
-		counts := []int{len(b0), int(s2.Count()), len(b0)}
+		// a segment with a different field set, loaded (its field table has spare capacity)
+		b4 := g.Batch(BatchOpts{NDocs: 1 + g.R.Intn(6), IDPrefix: "y", NFields: 8})
+		for d := range b4 {
+			b4[d] = append(b4[d], Field{N: "only_here", Len: 1, St: true, Val: []byte("v"), Terms: []Term{{T: []byte("q"), Freq: 1, Locs: []Loc{{Pos: 1, Start: 0, End_: 1}}}}})
+		}
+		s4b, _, _ := Current.New(b4.Documents(), HarnessNorm, g.ChunkMode())
+		pb4, _ := in.Persist(s4b)
+		s4, _ := in.LoadBytes(pb4, g.R.Intn(2))
+		segs = []segment.Segment{s0, s2, s3, s4}
+		counts := []int{len(b0), int(s2.Count()), len(b0), len(b4)}
 		bms := []*roaring.Bitmap{bitmapOf(g.subset(len(b0), 2)), bitmapOf(g.subset(len(b0), 4)), roaring.New()}
 		bms[0].RunOptimize()
 		takeSeg := func(s segment.Segment) snap {
+			d := in.obsAll(s)
+			if fa, ok := s.(footerAPI); ok { // every public accessor is an observation (taken before persisting)
+				d = append(d, uint64(fa.CRC()), uint64(fa.ChunkMode()), uint64(fa.Version()), fa.NumDocs(),
+					fa.StoredIndexOffset(), fa.FieldsIndexOffset(), fa.DocValueOffset())
+			}
 			pb, _ := in.Persist(s)
-			return snap{in.obsAll(s), pb}
+			return snap{d, pb}
 		}
 		var base []snap
 		for _, s := range segs {
@@ -780,7 +794,12 @@ func specialC15(seed int64, thorough bool, tmp string) *Special {
 				what = "merge"
 				nontriv = true
 				safely(func() error {
-					_, _, err := mergeBytes(Current, []segment.Segment{segs[0], seg}, []*roaring.Bitmap{bms[g.R.Intn(3)], bms[1]}, g.ChunkMode())
+					other := segs[g.R.Intn(len(segs))]
+					pair := []segment.Segment{other, seg}
+					if g.R.Intn(2) == 0 {
+						pair = []segment.Segment{seg, other}
+					}
+					_, _, err := mergeBytes(Current, pair, []*roaring.Bitmap{bms[g.R.Intn(3)], bms[1]}, g.ChunkMode())
 					return err
 				})
 			case 3:
@@ -883,7 +902,7 @@ func watch(f func() (W, error), d time.Duration) outcome {
 	go func() {
 		defer func() {
 			if r := recover(); r != nil {
-				ch <- outcome{kind: "panic:" + fmt.Sprint(r)}
+				ch <- outcome{kind: "panic:" + fmt.Sprint(r) + " @ " + trimStack(debug.Stack())}
 			}
 		}()
 		o, err := f()
@@ -901,6 +920,17 @@ func watch(f func() (W, error), d time.Duration) outcome {
 	}
 }
 
+// per-segment state that survives between the calls of one run (C19: an iterator
+// opened before the storage fails and continued afterwards)
+type iterKeep struct{ it segment.PostingsIterator }
+
+var iterStates sync.Map
+
+func iterState(seg segment.Segment) *iterKeep {
+	v, _ := iterStates.LoadOrStore(seg, &iterKeep{})
+	return v.(*iterKeep)
+}
+
 // readCall is one read API call with its transcript.
 type readCall struct {
 	Name string
@@ -915,11 +945,65 @@ func c19Calls(g *Gen, b Batch, count int) []readCall {
 		calls = append(calls, readCall{name, f})
 	}
 	n := 8 + g.R.Intn(8)
+	// one postings iterator is kept across calls: opened by the first "iter" call of a
+	// run and continued by the later ones (the state lives in the run's reader slot)
+	longest := FT{}
+	best := 0
+	cnt := map[string]int{}
+	for _, d := range b {
+		for _, f := range d {
+			for _, t := range f.Terms {
+				k := f.N + "\x00" + string(t.T)
+				cnt[k]++
+				if cnt[k] > best {
+					best, longest = cnt[k], FT{f.N, t.T}
+				}
+			}
+		}
+	}
+	iterStep := func(k int) {
+		mk(fmt.Sprintf("iter-continue:%d", k), func(seg segment.Segment, rd *segment.DocumentValueReader) (W, error) {
+			st := iterState(seg)
+			if st.it == nil {
+				d, err := seg.Dictionary(longest.F)
+				if err != nil {
+					return nil, err
+				}
+				pl, err := d.PostingsList(longest.T, nil, nil)
+				if err != nil {
+					return nil, err
+				}
+				it, err := pl.Iterator(true, true, true, nil)
+				if err != nil {
+					return nil, err
+				}
+				st.it = it
+			}
+			var out W
+			for i := 0; i < k; i++ {
+				p, err := st.it.Next()
+				if err != nil {
+					return nil, err
+				}
+				if p == nil {
+					out.Num(0)
+					break
+				}
+				out.Num(1)
+				postingOut(&out, p)
+			}
+			return out, nil
+		})
+	}
 	for i := 0; i < n; i++ {
 		ft := g.pickFT(fts)
 		doc := uint64(0)
 		if count > 0 {
 			doc = uint64(g.R.Intn(count))
+		}
+		if i%3 == 2 {
+			iterStep(1 + g.R.Intn(best/3+2))
+			continue
 		}
 		switch g.R.Intn(5) {
 		case 0:
@@ -1128,6 +1212,9 @@ func specialC09(seed int64, thorough bool) *Special {
 	var totalCalls int64
 	for r := 0; r < rounds; r++ {
 		nd := 130 + g.R.Intn(270)
+		if r%2 == 1 {
+			nd = 1100 + g.R.Intn(300) // two doc-value chunks, adaptive multi-chunk postings
+		}
 		b := g.Batch(BatchOpts{NDocs: nd, NFields: 3, NVocab: 6, ForceDV: true})
 		seg, _, err := Current.New(b.Documents(), HarnessNorm, g.ChunkMode())
 		if err != nil {
@@ -1142,6 +1229,21 @@ func specialC09(seed int64, thorough bool) *Special {
 			var buf bytes.Buffer
 			seg.WriteTo(&buf, nil)
 			seg, _ = Current.Load(segment.NewDataReaderAt(&faultyReader{b: buf.Bytes(), failFrom: -1}, buf.Len()))
+		}
+		// the answers are computed sequentially on one instance, the concurrent phase
+		// then runs on a second, cold instance of the same segment (no cache is warm)
+		var img bytes.Buffer
+		seg.WriteTo(&img, nil)
+		coldCopy := func() segment.Segment {
+			if r%3 == 2 {
+				c, _ := Current.Load(segment.NewDataReaderAt(&faultyReader{b: img.Bytes(), failFrom: -1}, img.Len()))
+				return c
+			}
+			c, _ := Current.Load(segment.NewDataBytes(append([]byte(nil), img.Bytes()...)))
+			return c
+		}
+		if r%3 == 0 { // keep one built (never loaded) segment kind: it has no cold twin, warm-up is unavoidable
+			coldCopy = func() segment.Segment { return seg }
 		}
 		fts := BatchTerms(b)
 		fields := BatchFields(b)
@@ -1186,9 +1288,18 @@ func specialC09(seed int64, thorough bool) *Special {
 				case 3:
 					cs = append(cs, call{"docvalues", func() W {
 						rd, _ := seg.DocumentValueReader(fields)
+						rd2, _ := seg.DocumentValueReader(fields)
 						var out W
+						first := true
 						for _, n := range []uint64{doc, doc2} {
 							rd.VisitDocumentValues(n, func(f string, t []byte) {
+								if first { // a second reader used from inside the first reader's callback
+									first = false
+									rd2.VisitDocumentValues(doc2, func(f2 string, t2 []byte) {
+										out.Str(f2)
+										out.Bytes(t2)
+									})
+								}
 								out.Str(f)
 								out.Bytes(t)
 							})
@@ -1232,6 +1343,7 @@ func specialC09(seed int64, thorough bool) *Special {
 			}
 			return cs
 		}
+		warm := seg
 		all := make([][]call, gor)
 		want := make([][]W, gor)
 		for gi := 0; gi < gor; gi++ {
@@ -1246,6 +1358,8 @@ func specialC09(seed int64, thorough bool) *Special {
 				want[gi] = append(want[gi], w)
 			}
 		}
+		seg = coldCopy() // the closures read the variable: from here on they hit the cold instance
+		_ = warm
 		var inside, maxInside, mism int64
 		var wg sync.WaitGroup
 		stop := make(chan struct{})
